@@ -51,7 +51,9 @@ func replayModel(V *Verifier, fi *FuncInfo, ob *Obligation, repo, wd string) *Re
 	}
 	sig := fi.Obj.Type().(*types.Signature)
 	var b bytes.Buffer
-	fmt.Fprintf(&b, "package %s\n\nimport (\n\t\"fmt\"\n\t\"testing\"\n)\n\n", fi.Pkg.Name)
+	fmt.Fprintf(&b, "package %s\n\nimport (\n\t\"fmt\"\n\t\"testing\"\n\t\"unicode/utf8\"\n)\n\n", fi.Pkg.Name)
+	b.WriteString("func govcRuneAt[T ~string | ~[]byte](s T, i int64) int64 {\n\tr, _ := utf8.DecodeRuneInString(string(s[i:]))\n\treturn int64(r)\n}\n\n")
+	b.WriteString("func govcWidthAt[T ~string | ~[]byte](s T, i int64) int64 {\n\t_, w := utf8.DecodeRuneInString(string(s[i:]))\n\treturn int64(w)\n}\n\n")
 	b.WriteString("func govcToI[T ~int | ~int8 | ~int16 | ~int32 | ~int64 | ~uint | ~uint8 | ~uint16 | ~uint32 | ~uint64 | ~uintptr](x T) int64 { return int64(x) }\n\n")
 	b.WriteString("func TestGovcReplay(t *testing.T) {\n")
 	var argNames []string
@@ -157,10 +159,18 @@ func replayModel(V *Verifier, fi *FuncInfo, ob *Obligation, repo, wd string) *Re
 	}
 	postChecked := false
 	if ob.Kind == "post" && strings.HasPrefix(ob.Detail2(), "ensures") {
-		idx, _ := strconv.Atoi(strings.TrimPrefix(ob.Detail2(), "ensures"))
+		// "ensures3", "ensures3.c2" (a conjunct of it), "ensures3{group}" all name ensures clause 3
+		digits := strings.TrimPrefix(ob.Detail2(), "ensures")
+		for k, ch := range digits {
+			if ch < '0' || ch > '9' {
+				digits = digits[:k]
+				break
+			}
+		}
+		idx, _ := strconv.Atoi(digits)
 		fct := V.contractFor(fi.Obj)
 		if fct != nil && idx >= 1 && idx <= len(fct.Ensures) {
-			tr := &goTranslator{ptypes: ptypes, results: resNames, sig: sig}
+			tr := &goTranslator{ptypes: ptypes, results: resNames, sig: sig, V: V, pkg: fi.Pkg.Name}
 			if g, err := tr.boolExpr(fct.Ensures[idx-1].Expr, false); err == nil {
 				fmt.Fprintf(&b, "\tif !(%s) {\n\t\tfmt.Println(\"GOVC-REPLAY: postcondition violated: %s\")\n\t} else {\n\t\tfmt.Println(\"GOVC-REPLAY: postcondition holds\")\n\t}\n", g, strings.ReplaceAll(fct.Ensures[idx-1].Src, "\"", "'"))
 				postChecked = true
@@ -224,6 +234,79 @@ type goTranslator struct {
 	results []string
 	sig     *types.Signature
 	bound   map[string]bool
+	V       *Verifier
+	pkg     string
+	depth   int
+}
+
+// userSpec: a non-recursive spec function of the package (or of the stdlib contracts), to be unfolded
+func (g *goTranslator) userSpec(name string) *SpecFunc {
+	if g.V == nil || g.depth > 6 {
+		return nil
+	}
+	for _, pn := range []string{g.pkg, "stdlib"} {
+		if pc := g.V.contractsByName[pn]; pc != nil {
+			if sf := pc.Specs[name]; sf != nil && !sf.Rec && sf.Body != nil {
+				return sf
+			}
+		}
+	}
+	return nil
+}
+
+func substSNode(n *SNode, m map[string]*SNode) *SNode {
+	if n == nil {
+		return nil
+	}
+	if n.Op == "id" {
+		if r, ok := m[n.Text]; ok {
+			return r
+		}
+		return n
+	}
+	c := *n
+	c.Args = make([]*SNode, len(n.Args))
+	m2 := m
+	if len(n.Vars) > 0 && (n.Op == "forall" || n.Op == "exists" || n.Op == "let") {
+		m2 = map[string]*SNode{}
+		for k, v := range m {
+			m2[k] = v
+		}
+		for _, v := range n.Vars {
+			delete(m2, v)
+		}
+	}
+	for i, a := range n.Args {
+		c.Args[i] = substSNode(a, m2)
+	}
+	return &c
+}
+
+func (g *goTranslator) unfold(sf *SpecFunc, n *SNode) (*SNode, error) {
+	if len(sf.Params) != len(n.Args) {
+		return nil, fmt.Errorf("spec %s: arity", sf.Name)
+	}
+	m := map[string]*SNode{}
+	for i, p := range sf.Params {
+		m[p.Name] = n.Args[i]
+	}
+	return substSNode(sf.Body, m), nil
+}
+
+func (g *goTranslator) iteExpr(n *SNode, old bool, branch func(*SNode, bool) (string, error), typ string) (string, error) {
+	c, err := g.boolExpr(n.Args[0], old)
+	if err != nil {
+		return "", err
+	}
+	a, err := branch(n.Args[1], old)
+	if err != nil {
+		return "", err
+	}
+	b, err := branch(n.Args[2], old)
+	if err != nil {
+		return "", err
+	}
+	return fmt.Sprintf("func() %s { if %s { return %s }; return %s }()", typ, c, a, b), nil
 }
 
 func (g *goTranslator) boolExpr(n *SNode, old bool) (string, error) {
@@ -314,6 +397,18 @@ func (g *goTranslator) boolExpr(n *SNode, old bool) (string, error) {
 		if n.Text == "old" {
 			return g.boolExpr(n.Args[0], true)
 		}
+		if n.Text == "ite" && len(n.Args) == 3 {
+			return g.iteExpr(n, old, g.boolExpr, "bool")
+		}
+		if sf := g.userSpec(n.Text); sf != nil {
+			body, err := g.unfold(sf, n)
+			if err != nil {
+				return "", err
+			}
+			g.depth++
+			defer func() { g.depth-- }()
+			return g.boolExpr(body, old)
+		}
 	}
 	return "", fmt.Errorf("not executable: %s", n.String())
 }
@@ -339,6 +434,16 @@ func (g *goTranslator) isBool(n *SNode) bool {
 		return n.Text == "!"
 	case "forall", "exists":
 		return true
+	case "call":
+		if n.Text == "old" && len(n.Args) == 1 {
+			return g.isBool(n.Args[0])
+		}
+		if n.Text == "ite" && len(n.Args) == 3 {
+			return g.isBool(n.Args[1])
+		}
+		if sf := g.userSpec(n.Text); sf != nil {
+			return sf.Result == "bool"
+		}
 	}
 	return false
 }
@@ -444,6 +549,35 @@ func (g *goTranslator) intExpr(n *SNode, old bool) (string, error) {
 			return g.intExpr(n.Args[0], true)
 		case "int", "int64", "uint64", "uint", "byte", "uint8", "uint16", "uint32", "int32", "rune":
 			return g.intExpr(n.Args[0], old)
+		case "ite":
+			if len(n.Args) == 3 {
+				return g.iteExpr(n, old, g.intExpr, "int64")
+			}
+		case "runeAt", "widthAt":
+			if len(n.Args) == 2 {
+				base, err := g.seqExpr(n.Args[0], old)
+				if err != nil {
+					return "", err
+				}
+				i, err := g.intExpr(n.Args[1], old)
+				if err != nil {
+					return "", err
+				}
+				f := "govcRuneAt"
+				if n.Text == "widthAt" {
+					f = "govcWidthAt"
+				}
+				return f + "(" + base + ", " + i + ")", nil
+			}
+		}
+		if sf := g.userSpec(n.Text); sf != nil && sf.Result != "bool" {
+			body, err := g.unfold(sf, n)
+			if err != nil {
+				return "", err
+			}
+			g.depth++
+			defer func() { g.depth-- }()
+			return g.intExpr(body, old)
 		}
 	}
 	return "", fmt.Errorf("not executable: %s", n.String())
